@@ -119,7 +119,7 @@ def run(run):
         return
     # helpers that main was split into (single call site, private, not error-propagating) are spliced back so that
     # every rule below sees one body whether or not the code was divided for readability
-    inl = prog.inline_single_use_helpers(MAIN, skip=r"::(build|convert_file|parse_value_of)$")
+    inl = prog.inline_single_use_helpers(MAIN, skip=r"::(build|convert_file|parse_value_of)$", allow_option=True, same_file=True)
     if inl:
         run.note("main analysed with its single-use helpers inlined: %s" % ", ".join(short(x) for x in inl))
     run.record("inlined_helpers", [short(x) for x in inl])
@@ -303,9 +303,16 @@ def run(run):
             if prs and d["l"] == set_local:
                 e = ex._rvalue(st["rv"], blk["id"], 0)
                 stored.setdefault(prs[-1]["name"], []).append((e, st))
+    consumed = set()
+    TABLE_CALLS.clear()
+    if set_local is None or not stored:
+        tf = option_table_form(run, prog, MAIN, ex, lt, cands if cands else [], chain if cands else set())
+        if tf is not None:
+            set_local = tf["settings_local"]
+            consumed |= tf["consumed"]
+            TABLE_CALLS.update(tf["call_bids"])
     if set_local is None:
         run.bad("C19.X3", "settings-local", where(lt), "the settings passed to the library are not a local of main whose fields receive the options")
-    consumed = set()
     for field, lst in sorted(stored.items()):
         for e, st in lst:
             names = value_of_names(e)
@@ -359,6 +366,9 @@ def run(run):
                 # Result: 0 = Ok, 1 = Err; Option: 0 = None, 1 = Some
                 ty_hint = expr_str(cs)
                 is_result = mentions(cs, lambda z: z[0] == "call" and re.search(r"File::open|File::create|fs::write|write_all$|::parse$|svgbob_cli::build|convert_file|read_to_string|create_dir", z[1]))
+                # the `apply` entry of the verified option table: its only Err is the parse error of the option's value
+                if p == MAIN and strip(cs[1])[0] == "call" and len(strip(cs[1])) > 3 and strip(cs[1])[3] in TABLE_CALLS:
+                    is_result = True
                 if is_result and tk in (1, ("not", (0,))):
                     errish = True
                 if is_result and tk in (0, ("not", (1,))):
@@ -454,6 +464,111 @@ def run(run):
     x6(run)
     batch(run)
     run.assume("clap parses the command line as documented; fs::write may leave a partial file on I/O errors (not decided)")
+
+
+TABLE_CALLS = set()
+
+
+def option_table_form(run, prog, main, ex, lt, cands, chain):
+    """X3 for table-driven option handling: `for (name, apply) in TABLE { if let Some(v) = args.value_of(name) { apply(&mut
+    settings, v)? } }` with `const TABLE: [(&str, fn(&mut Settings, &str) -> Result<(), String>); N]`.  Verified parts:
+    every entry's closure stores exactly one Settings field, the one named like the entry (`-` -> `_`), from its value
+    parameter (scale: multiplies); main reads value_of(<entry>.0) and calls <entry>.1 of the same entry with the settings
+    local that goes to the library and that value.  Returns None when the code is not of this form."""
+    b = prog.bodies[main]
+    ind = [(bid, t) for bid, t in prog.calls(main) if isinstance(t["callee"], dict) and t["callee"].get("indirect") == "fnptr" and len(t["args"]) == 2]
+    if len(ind) != 1:
+        return None
+    bid, t = ind[0]
+    fnp = strip(ex.operand(t["callee"]["op"]))
+    if not (fnp[0] == "field" and tuple(fnp[2])[-3:] == ("@Some", "0", "1")):
+        return None
+    item = strip(fnp[1])
+    tables = []
+    mentions(item, lambda z: ((z[0] == "static" and tables.append(z[1])) or (z[0] == "const" and isinstance(z[2], str) and z[2] in prog.bodies and tables.append(z[2]))) and False)
+    if len(set(tables)) != 1 or not (item[0] == "call" and re.search(r"Iterator>?::next$", item[1])):
+        return None
+    table = tables[0]
+    if re.search(r"Iterator::(filter|skip|take|step_by|rev|zip|chain)", expr_str(item)):
+        return None
+    # the two arguments
+    a0, a1 = t["args"]
+    pl0 = op_place(a0)
+    sl = prog.slicer(main)
+    tgt = set()
+    work = [pl0["l"]] if pl0 else []
+    while work:
+        l = work.pop()
+        if l in tgt:
+            continue
+        tgt.add(l)
+        for kind, d, _ in sl.defs.get(l, ()):
+            if kind == "assign" and "place" in d["rv"]:
+                work.append(d["rv"]["place"]["l"])
+            if kind == "assign":
+                for o in d["rv"].get("ops", []):
+                    if op_place(o):
+                        work.append(op_place(o)["l"])
+    sel = [c for c in cands if c in tgt and c in chain]
+    if len(sel) != 1:
+        return None
+    val = strip(ex.operand(a1))
+    okv = val[0] == "field" and tuple(val[2])[:2] == ("@Some", "0") and strip(val[1])[0] == "call" and strip(val[1])[1].endswith("ArgMatches::<'a>::value_of") and \
+        (lambda nm: nm[0] == "field" and tuple(nm[2])[-3:] == ("@Some", "0", "0") and strip(nm[1]) == item)(strip(strip(val[1])[2][1]))
+    if not okv:
+        run.bad("C19.X3", "option-table-call", where(t), "the table's apply function is not called with value_of(<the same entry's name>): `%s`" % expr_str(val)[:120])
+        return None
+    # the table itself
+    rets = [strip(r) for r in Expr(prog, table).returns()]
+    if len(rets) != 1 or rets[0][0] != "agg" or rets[0][1] != "array":
+        return None
+    consumed = set()
+    for _, ent in rets[0][3]:
+        ent = strip(ent)
+        if not (ent[0] == "agg" and len(ent[3]) == 2):
+            return None
+        nm, fn = strip(ent[3][0][1]), strip(ent[3][1][1])
+        while fn[0] == "cast":
+            fn = strip(fn[2])
+        cl, _caps = closure_of(fn)
+        if not (nm[0] == "const" and nm[1] == "str" and cl in prog.bodies):
+            return None
+        name = nm[2]
+        cb = prog.bodies[cl]
+        cex = Expr(prog, cl)
+        stores = []
+        for blk in cb["blocks"]:
+            if blk.get("cleanup"):
+                continue
+            for st in blk["stmts"]:
+                d = st.get("dst")
+                if d and st.get("rv") and any(isinstance(pr, dict) and (pr.get("adt") or "").endswith("settings::Settings") for pr in d["p"]):
+                    fld = [pr for pr in d["p"] if isinstance(pr, dict) and (pr.get("adt") or "").endswith("settings::Settings")][-1]["name"]
+                    stores.append((d["l"], fld, cex._rvalue(st["rv"], blk["id"], 0), st))
+        want = name.replace("-", "_")
+        if len(stores) != 1 or stores[0][0] != 2:
+            run.bad("C19.X3", "option-table-entry/%s" % name, where(cb), "the table entry of --%s stores %s" % (name, [(s_[1]) for s_ in stores] or "nothing"))
+            continue
+        _, fld, e, st = stores[0]
+        from_value = mentions(e, lambda z: z[0] == "param" and z[1] == 3) and not mentions(e, lambda z: z[0] == "call" and z[1].endswith("value_of"))
+        if fld != want or not from_value:
+            run.bad("C19.X3", "option-crossed/%s" % fld, where(st), "settings.%s receives option %r (expected --%s)" % (fld, [name], fld.replace("_", "-")))
+            continue
+        if fld == "scale":
+            e2 = strip(e)
+            # `settings.scale *= v`: a product of the field itself (self-reference: 'deep') and the parsed value
+            ops_ = set()
+            mentions(e2, lambda z: z[0] == "bin" and ops_.add(z[1]) and False)
+            selfref = mentions(e2, lambda z: z == ("deep",) or (z[0] == "param" and z[1] == 2 and z[2][-1:] == ("scale",)))
+            okm = e2[0] == "bin" and ops_ == {"Mul"} and selfref
+            if not okm:
+                run.bad("C19.X3", "scale-option", where(st), "settings.scale is set to `%s`" % expr_str(e2)[:100])
+                continue
+            run.ok("C19.X3", "--scale multiplies the default scale", where(st), "table entry")
+        else:
+            run.ok("C19.X3", "--%s is stored into settings.%s" % (name, fld), where(st), "table entry")
+        consumed.add(name)
+    return {"settings_local": sel[0], "consumed": consumed, "call_bids": {bid}}
 
 
 LOSSY_NAME = re.compile(r"Path(Buf)?::(set_extension|with_extension|set_file_name|with_file_name|pop|file_prefix)$|"
@@ -657,7 +772,15 @@ def x7(run, fn):
             if sw["k"] != "switch":
                 continue
             c = strip(ex.operand(sw["on"]))
-            if re.search(CREATE, Program.callee_name(t)) and c[0] == "discr" and strip(c[1])[0] == "call" and mentions(c[1], lambda z: z[0] == "call" and len(z) > 3 and z[3] == bid and z[1] == Program.callee_name(t)):
+            def only_this_write_can_fail(v):
+                """the Result that is tested is this write's (possibly mapped), or one of several alternatives of which every
+                other one is a constant Ok (the other output modes of a helper that was spliced in)"""
+                v = strip(v)
+                alts_ = [strip(a) for a in v[1]] if v[0] == "phi" else [v]
+                mine = [a for a in alts_ if a[0] == "call" and mentions(a, lambda z: z[0] == "call" and len(z) > 3 and z[3] == bid and z[1] == Program.callee_name(t))]
+                rest = [a for a in alts_ if a not in mine]
+                return bool(mine) and all(a[0] == "agg" and a[2] == "Ok" for a in rest)
+            if re.search(CREATE, Program.callee_name(t)) and c[0] == "discr" and only_this_write_can_fail(c[1]):
                 errs = [sw["targets"][i] for i, v in enumerate(sw["values"]) if v == 1]
                 oks = [x for x in sw["targets"] if x not in errs]
                 if errs:
